@@ -126,6 +126,10 @@ def pair_queries(jws, sig, jwk):
     for ki, k in enumerate(ks):
         if isinstance(sig, list):
             sobjs = [sig[ki]] if ki < len(sig) and isinstance(sig[ki], dict) else []
+        elif keys is not None and sig is not None and not isinstance(sig, dict):
+            # with a key list, a `sig` argument that is neither an object nor an array selects nothing: each key is
+            # tried against the signature objects of the JWS itself (json_array_get on a non-array is NULL)
+            sobjs = sig_objects(jws, None)
         else:
             sobjs = sig_objects(jws, sig)
         for si, s in enumerate(sobjs):
